@@ -29,16 +29,17 @@ tag = f"{name.replace('/', '_').replace(':', '_')}_{'_'.join(props)}_{seed or 1}
 import fcntl
 os.makedirs("/tmp/ns", exist_ok=True)
 lockf = None
-for k in range(1, 9):
-    f = open(f"/tmp/ns/slot{k}.lock", "w")
-    try:
-        fcntl.flock(f, fcntl.LOCK_EX | fcntl.LOCK_NB)
-        lockf, D = f, f"/tmp/ns/slot{k}"
-        break
-    except BlockingIOError:
-        f.close()
-if lockf is None:
-    sys.exit("no free slot")
+while lockf is None:
+    for k in range(1, 7):
+        f = open(f"/tmp/ns/slot{k}.lock", "w")
+        try:
+            fcntl.flock(f, fcntl.LOCK_EX | fcntl.LOCK_NB)
+            lockf, D = f, f"/tmp/ns/slot{k}"
+            break
+        except BlockingIOError:
+            f.close()
+    if lockf is None:
+        time.sleep(5)
 os.makedirs(D, exist_ok=True)
 res = {}
 try:
